@@ -146,6 +146,7 @@ class SymExec(object):
         self.stop_blocks = set()
         self.stops = []
         self.no_summarise = False
+        self.nonneg = None     # predicate on term names: symbol is known >= 0
         self.pure_calls = set()
         self.merge_vars = None     # list of lvalue keys widened at join blocks (None = no merging)
         self.invariants = None     # fn(state) -> list of Lin that must be <= 0 (re-established after widening)
@@ -154,6 +155,7 @@ class SymExec(object):
         self.cut_blocks = None     # block ids where merging is allowed (None = every join)
         self.lazy_merge = False
         self.keep_vars = set()
+        self.volatile_names = ()   # facts mentioning these names do not survive a merge point
         self.live = self._liveness()
 
     # ---- loops
@@ -272,26 +274,31 @@ class SymExec(object):
             root = k.lstrip('(*').split('-')[0].split('.')[0].split('[')[0].split(')')[0]
             if root in live or k in (self.merge_vars or ()) or k in self.keep_vars:
                 env[k] = v
+        in_loop = b.id in self.loops and st.visits.get(b.id, 0) >= 1
         for k in self.merge_vars or ():
-            if k in env and isinstance(env[k], Lin) and not env[k].is_const():
+            if k in env and isinstance(env[k], Lin) and (in_loop or not env[k].is_const()):
                 env[k] = Lin.sym('%s@J%d' % (k, b.id))
+            elif k in env and isinstance(env[k], Ptr) and env[k].base != 'NULL' and (in_loop or not env[k].off.is_const()):
+                env[k] = Ptr(env[k].base, Lin.sym('%s@J%d' % (k, b.id)))
         key = (b.id, frozenset((k, v.key() if hasattr(v, 'key') else v) for k, v in env.items()),
-               frozenset((k, v) for k, v in st.notes.items() if k not in ('region_start', 'region_env', 'start_vals') and not (isinstance(k, tuple) and k[0] == 'atom')),
+               frozenset((k, v) for k, v in st.notes.items() if k not in ('region_start', 'region_env', 'start_vals') and not (isinstance(k, tuple) and k[0] == 'atom')
+                         and not (isinstance(k, tuple) and len(k) > 1 and isinstance(k[1], str) and any(vn in k[1] for vn in self.volatile_names))),
                frozenset(keep_inv))
         if key in self.seen_join:
             return None
         self.seen_join.add(key)
         s2 = PState()
         s2.env = env
-        s2.notes = dict((k, v) for k, v in st.notes.items() if not (isinstance(k, tuple) and k[0] == 'atom') and k not in ('region_env', 'start_vals'))
+        s2.notes = dict((k, v) for k, v in st.notes.items() if not (isinstance(k, tuple) and k[0] == 'atom') and k not in ('region_env', 'start_vals')
+                        and not (isinstance(k, tuple) and len(k) > 1 and isinstance(k[1], str) and any(vn in k[1] for vn in self.volatile_names)))
         s2.notes['region_start'] = b.id
-        s2.notes['start_vals'] = tuple(sorted(((k, env[k]) for k in (self.merge_vars or ()) if isinstance(env.get(k), Lin)), key=lambda x: x[0]))
+        s2.notes['start_vals'] = tuple(sorted(((k, env[k] if isinstance(env[k], Lin) else env[k].off) for k in (self.merge_vars or ()) if isinstance(env.get(k), (Lin, Ptr))), key=lambda x: x[0]))
         s2.notes['region_env'] = dict((k, (env[k].key() if hasattr(env.get(k), 'key') else env.get(k, ('unset',)))) for k in (self.merge_vars or ()))
         s2.visits = dict(st.visits)
         s2.loopsyms = dict(st.loopsyms)
         mv = tuple(self.merge_vars or ())
         for (terms, c) in st.facts:
-            if all(not any(tn.startswith(m) for m in mv) for tn, _ in terms):
+            if all(not any(tn.startswith(m) for m in mv) and not any(vn in tn for vn in self.volatile_names) for tn, _ in terms):
                 s2.facts.add((terms, c))
         if self.invariants:
             for (name, l) in self.invariants(self, s2):
@@ -453,8 +460,48 @@ class SymExec(object):
         return '%s+%r' % (p.base, p.off)
 
     # ---- conditions
+    def nonpos(self, l):
+        """l <= 0 for all valuations with the non-negative symbols >= 0"""
+        if l.c > 0:
+            return False
+        for k, v in l.t.items():
+            if v > 0 or not self.is_nonneg(k):
+                return False
+        return True
+
+    def is_nonneg(self, term):
+        return self.nonneg is not None and self.nonneg(term)
+
     def decide_le(self, l, st):
         """is Lin l <= 0 known true (True), known false (False) or unknown (None)?"""
+        if l.is_const():
+            return l.c <= 0
+        if self.nonpos(l):
+            return True
+        r = self._decide_le_basic(l, st)
+        if r is not None:
+            return r
+        # l <= f (+ g) for known facts f, g <= 0 and a remainder that is non-positive
+        fl = [Lin(dict(t), c) for (t, c) in st.facts]
+        for f in fl:
+            if self.nonpos(l - f):
+                return True
+            for tn, cf in f.t.items():
+                cl = l.t.get(tn, 0)
+                if cf > 0 and cl > cf and cl % cf == 0 and self.nonpos(l - f.scale(cl // cf)):
+                    return True
+        if len(fl) <= 40:
+            for i, f in enumerate(fl):
+                for g in fl[i:]:
+                    if self.nonpos(l - f - g):
+                        return True
+        neg = l.scale(-1) + Lin.const(1)
+        for f in fl:
+            if self.nonpos(neg - f):
+                return False
+        return None
+
+    def _decide_le_basic(self, l, st):
         if l.is_const():
             return l.c <= 0
         k = l.key()
